@@ -198,6 +198,110 @@ def shrink(impl, model, lines, sig):
     return vlib.shrink_list(lines, fails, max_steps=120)
 
 
+def _hull(writes):
+    """per page (first, last) byte written, as sorted list of (addr, len)"""
+    pages = {}
+    for a, n in writes:
+        if n == 0:
+            continue
+        x = a
+        while x < a + n:
+            pg = x // 4096
+            end = min(a + n, (pg + 1) * 4096)
+            lo, hi = pages.get(pg, (x, end - 1))
+            pages[pg] = (min(lo, x), max(hi, end - 1))
+            x = end
+    return sorted((lo, hi - lo + 1) for lo, hi in pages.values())
+
+
+def _norm(evs):
+    """canonical form of one op's code events: non-write events in order + per-page hull of the writes"""
+    other = [e for e in evs if not e.startswith('W ')]
+    writes = [(int(e.split()[1]), int(e.split()[2])) for e in evs if e.startswith('W ')]
+    return other, _hull(writes)
+
+
+def ch_case(impl, model, ops):
+    """run code-holder ops on the implementation and on the model; -> (None | (index, op, impl, model)), status"""
+    lines = ['0 init', '0 ch_new 0'] + ['0 ch_' + o for o in ops] + ['0 finish']
+    rc, out, err = run_script(impl, lines)
+    traces, steps, results, notes = parse(out)
+    if rc == 64:
+        return None, 'invalid'       # ill-formed op list (can only come from shrinking)
+    if rc != 0:
+        return ('run', 'harness rc %d' % rc, notes[-3:], ''), 'crash'
+    per_step = {}
+    for ev, st, diag in traces.get(0, []):
+        if ev.split()[0] in ('A', 'Z', 'PW', 'PX', 'W'):
+            per_step.setdefault(st, []).append(ev)
+    regs = [(int(e.split()[1]), int(e.split()[2])) for e in per_step.get(0, []) if e.startswith('A ')]
+    res = [int(r.split()[2]) for r in results if r.startswith('R ch ')]
+    if not regs or len(res) != len(ops) + 1:
+        return ('run', 'unexpected harness output', notes[-3:], ''), 'crash'
+    free0 = res[0]
+    hs = []
+    for i, (st, ln) in enumerate(reversed(regs)):
+        ln = (ln + 4095) // 4096 * 4096
+        hs += [st, free0 if i == 0 else st + ln, st + ln]
+    mline = 'CH ' + ' '.join(map(str, hs)) + ' : ' + ' ; '.join(['new 0'] + ops + ['fin'])
+    rcm, outm, errm = vlib.run_lines(model, [mline])
+    if rcm != 0 or len(outm) != 1:
+        raise vlib.BuildError('code-holder model driver failed: %s' % errm[-300:])
+    mops = outm[0].split(' | ')
+    if len(mops) != len(ops) + 2:
+        raise vlib.BuildError('code-holder model driver: %d results for %d ops' % (len(mops), len(ops) + 2))
+    for i, m in enumerate(mops[1:]):
+        mres, mev = m.split(':', 1)
+        mev = [e.strip() for e in mev.split(',') if e.strip()]
+        iev = per_step.get(i + 2, [])
+        ires = res[i + 1] if i < len(ops) else 0
+        if i == len(ops):
+            # finish: only the unmaps belong to the code-holder layer
+            iev = [e for e in iev if e.startswith('Z ')]
+        (io, iw), (mo, mw) = _norm(iev), _norm(mev)
+        zero_len = i < len(ops) and ops[i].split()[0] in ('pub', 'puba', 'chg') and ops[i].split()[-1] == '0'
+        if zero_len:
+            # reloc_size 0 stores the 8 bytes of a pointer the harness does not control: only changed bytes are
+            # observed, so the implementation's write must lie inside the model's
+            same_w = all(any(a >= ma and a + n <= ma + mn for ma, mn in mw) for a, n in iw)
+        else:
+            same_w = iw == mw
+        if io != mo or not same_w or (i < len(ops) and int(mres) != ires):
+            return (i, (ops + ['fin'])[i], dict(result=ires, events=iev), dict(result=int(mres), events=mev)), 'diff'
+    return None, 'ok'
+
+
+def ch_correspond(chk, impl, model, n):
+    rng = chk.rng('codeholder')
+    nbad = 0
+    for _ in range(n):
+        ops = G.ch_script(rng, rng.choice([4, 10, 25, 60]))
+        bad, status = ch_case(impl, model, ops)
+        chk.count(('ch', ops), nontrivial=len(ops) >= 4)
+        chk.dist('codeholder_cases', status)
+        for o in ops:
+            chk.dist('codeholder_ops', o.split()[0])
+        if bad is not None and nbad < 2:
+            nbad += 1
+
+            def fails(sub):
+                try:
+                    b, st = ch_case(impl, model, sub)
+                except vlib.BuildError:
+                    return False
+                return b is not None and st == status and b[0] != 'run' or (st == 'crash' and status == 'crash')
+            small = vlib.shrink_list(ops, fails, max_steps=150)
+            b2, st2 = ch_case(impl, model, small)
+            if b2 is None:
+                small, b2 = ops, bad
+            chk.finding('codeholder-%s:%s' % (status, str(b2[1]).split()[0]),
+                        dict(ops=small, at=b2[0], op=b2[1], implementation=b2[2], model=b2[3],
+                             how='ops are run by harness/c17_alloc.c (ch_* commands on _MIR_publish_code & co.) and by the Coq model chstep'),
+                        'code holders (mir.c) and their verified model disagree at op %s: implementation %s, model %s' % (
+                            b2[1], json.dumps(b2[2])[:200], json.dumps(b2[3])[:200]))
+    return nbad
+
+
 def short(lines):
     return [l if len(l) < 90 else l[:70] + '...(%d hex chars)' % (len(l) - 70) for l in lines]
 
@@ -264,6 +368,9 @@ def run(chk):
         chk.finding(sig, dict(script=small, detail=detail,
                               how='./check C17 --replay <this file>  (feeds the script to harness/c17_alloc.c and the trace to the verified monitor)'),
                     what)
+    nbad = ch_correspond(chk, impl, model, 150 if quick else 5000)
+    if nbad:
+        seen_sigs['codeholder'] = None
     broken = [r for r in (r1, r2) if not r['ok']]
     if broken and not seen_sigs:
         extra = ''
